@@ -109,7 +109,7 @@ func (f *frame) exec(in ssa.Instruction, g Term, st *State) error {
 	case *ssa.MakeSlice:
 		ln := f.val(x.Len)
 		cp := f.val(x.Cap)
-		f.safety("alloc", g, And(Le(IntLit(0), ln), Le(ln, cp), Le(cp, BigLit(new(big.Int).Lsh(big.NewInt(1), 47)))), x)
+		f.safety("alloc", g, And(Le(IntLit(0), ln), Le(ln, cp), Le(cp, BigLit(new(big.Int).Lsh(big.NewInt(1), 40)))), x)
 		et := x.Type().Underlying().(*types.Slice).Elem()
 		obj := vc.allocObj(st, et)
 		f.set(x, MkSlice(obj, IntLit(0), ln, cp))
@@ -729,9 +729,9 @@ func (f *frame) execConvert(x *ssa.Convert, g Term, st *State) error {
 			obj := vc.allocObj(st, sl.Elem())
 			ln := Term{app("slen_", v), SInt}
 			// contents: bytes of the string (per-index relation via quantifier-free skolem use is not needed by current contracts)
-			h := vc.heap(st, "I")
+			h := vc.heap(st, vc.byteKind())
 			fr := vc.declare("strbytes", ArraySort(SInt, SInt))
-			vc.setHeap(st, "I", Store(h, obj, fr))
+			vc.setHeap(st, vc.byteKind(), Store(h, obj, fr))
 			f.set(x, MkSlice(obj, IntLit(0), ln, ln))
 		} else {
 			f.setFresh(x, g, st.Alloc)
